@@ -1,6 +1,6 @@
 /-
-Executable model of /repo/compiler/src/build/build.rs (non-test code, lines 1–1124 at commit 467354e, which added
-`validate_parse_tree`): a statement-by-statement transliteration.  Bugs of the Rust code are reproduced, not repaired
+Executable model of /repo/compiler/src/build/build.rs (non-test code, lines 1–1137 at commit 85b4b67; 467354e added
+`validate_parse_tree`, 85b4b67 the final `allScheduled` check): a statement-by-statement transliteration.  Bugs of the Rust code are reproduced, not repaired
 (the SideEffect arm ignores `left`; the "append the terminator unless the last instruction of the whole
 stream equals it" rule).  `nodes[i] = ..` with an index taken from the parse tree would panic when it is out of
 range, and a cyclic parse tree would make the work-list loop run forever: the model keeps both behaviours
@@ -21,7 +21,7 @@ Conventions
 * `Result<_, CompilerError<_>>` = `Outcome _`; `Outcome.err .other` is a `CompilerError::new_message`,
   `Outcome.err .data` a propagated literal error.  Messages are not modelled.
 * every `nodes[i] = Some(..)` (IndexMut) is `setNodeIdx .. "<site>"` and returns `Outcome.panic` when `i` is out
-  of range; every `nodes.get(i)` / `get_mut(i)` / `get_mut_or_error(i)` mirrors its `None` arm.
+  of range (the site labels are the line numbers of the file before the two commits above: add 96 for handler lines); every `nodes.get(i)` / `get_mut(i)` / `get_mut_or_error(i)` mirrors its `None` arm.
 * the two `while let Some(..) = ..pop()` loops take fuel: `rootFuel` bounds the iterations of the outer loop,
   `stepFuel` the total number of iterations of the inner loop; `Outcome.fuelOut` = still running.
 * `SizeIterator (0, usize::MAX)` (`child_count`) is a counter: `next()` returns the current value and increments.
@@ -559,7 +559,7 @@ def parseAddByteList : BState F → ParseNode → Outcome (BState F × Nat) := f
 /-- `data.parse_add_symbol(&node.text()[1..])` -/
 def parseAddSymbolLiteral : BState F → ParseNode → Outcome (BState F × Nat) := fun data node =>
   match dropFirstByte node.lexToken.text with
-  | none => .panic "build.rs:304 str slice [1..]"
+  | none => .panic "build.rs:400 str slice [1..]"
   | some rest => .ok (parseAddSymbol data rest)
 
 /-- `|data, node| Ok(Some(data.parse_add_symbol(node.text())?))` -/
@@ -741,16 +741,17 @@ def rootJump (data : BState F) (nodes : Nodes) (rootIndex : Nat) : Outcome (BSta
   | _ => pushNew
 
 /-- lines 248–256: `for end_instruction in end_instructions { .. }`; `lastInstruction` was read before the loop -/
-def pushEndInstructions (lastInstruction : Option Instr) (data : BState F) : List Instr → BState F
+def pushEndInstructions (lastInstruction : Option Instr) (rootStart : Nat) (data : BState F) : List Instr → BState F
   | [] => data
   | endInstruction :: rest =>
     let data :=
       match lastInstruction with
       | some instruction =>
-        if instruction = endInstruction then data
+        -- commit 3cee692: an instruction of an earlier root does not count as this root's terminator
+        if instruction = endInstruction ∧ getInstructionLen data > rootStart then data
         else pushInstr data endInstruction.1 endInstruction.2 none
       | none => pushInstr data endInstruction.1 endInstruction.2 none
-    pushEndInstructions lastInstruction data rest
+    pushEndInstructions lastInstruction rootStart data rest
 
 /-- `while let Some(root_index) = root_stack.pop() { .. }` -/
 def rootLoop (parseTree : Array ParseNode) : (rootFuel stepFuel : Nat) → Ctx F → Outcome (Ctx F)
@@ -761,7 +762,8 @@ def rootLoop (parseTree : Array ParseNode) : (rootFuel stepFuel : Nat) → Ctx F
     | some rootIndex =>
       let ctx := { ctx with rootStack := ctx.rootStack.pop }
       Outcome.bind (rootJump ctx.data ctx.nodes rootIndex) fun (data, currentRootJump) =>
-      -- let mut stack = vec![root_index];
+      -- let root_start = data.get_instruction_len();  let mut stack = vec![root_index];
+      let rootStart := getInstructionLen data
       let ctx := { ctx with data, stack := #[rootIndex] }
       Outcome.bind (innerLoop parseFloat parseTree currentRootJump stepFuel ctx) fun (ctx, stepFuel) =>
       -- let last_instruction = data.get_instruction_iter().last();   then   data.get_instruction(i)
@@ -774,13 +776,19 @@ def rootLoop (parseTree : Array ParseNode) : (rootFuel stepFuel : Nat) → Ctx F
           | some endInstruction => endInstruction
           | none => [(.endExpression, none)]
         | _ => [(.endExpression, none)]
-      let data := pushEndInstructions lastInstruction ctx.data endInstructions
+      let data := pushEndInstructions lastInstruction rootStart ctx.data endInstructions
       rootLoop parseTree rootFuel stepFuel { ctx with data }
 
 /-- fuel that suffices for every parse tree that is a proper tree (each node is popped at most twice) -/
 def defaultFuel (n : Nat) : Nat := 20 * n + 100
 
-/-- the part of `build` after `validate_parse_tree(..)?` (lines 171–261), i.e. `build` as it was before commit 467354e -/
+/-- lines 261–272: `for (index, (build_node, parse_node)) in nodes.iter().zip(parse_tree.iter()).enumerate()`:
+    every parse node except `Subexpression` ones must have been given a build node (commit 85b4b67) -/
+def allScheduled (nodes : Nodes) (parseTree : Array ParseNode) : Bool :=
+  (nodes.toList.zip parseTree.toList).all (fun (buildNode, parseNode) =>
+    !(buildNode.isNone && parseNode.definition != .subexpression))
+
+/-- the part of `build` after `validate_parse_tree(..)?` (lines 171–274) -/
 def buildCore (fuel : Nat) (parseRoot : Nat) (parseTree : Array ParseNode) (data : BState F) : Outcome (BState F × Nat) :=
   let nodes : Nodes := Array.replicate parseTree.size none
   -- same as root jump index but this one needs to be returned
@@ -788,7 +796,8 @@ def buildCore (fuel : Nat) (parseRoot : Nat) (parseTree : Array ParseNode) (data
   Outcome.bind (setNodeIdx nodes parseRoot (BuildNode.new parseRoot treeRootJump) "build.rs:178") fun nodes =>
   let ctx : Ctx F := { data, nodes, rootStack := #[parseRoot], stack := #[] }
   Outcome.bind (rootLoop parseFloat parseTree fuel fuel ctx) fun ctx =>
-    .ok (ctx.data, treeRootJump)
+    if allScheduled ctx.nodes parseTree then .ok (ctx.data, treeRootJump)
+    else buildErr                                     -- "{:?} node {} has no place in the instructions of its parent"
 
 /-- `build(parse_root, parse_tree, data)`: `Ok(BuildData { jump_index, .. })` is `.ok (data', jump_index)` -/
 def build (fuel : Nat) (parseRoot : Nat) (parseTree : Array ParseNode) (data : BState F) : Outcome (BState F × Nat) :=
